@@ -982,6 +982,14 @@ class Interp:
             return Tup(a.items * int(nb.p.const_value()))
         if isinstance(op, ast.Mod) and sa is not None:
             args = list(b.items) if isinstance(b, Tup) else [b]
+            # constant folding: a constant template with constant arguments
+            tmpl = self.strval(a)
+            consts = [self.strval(x) if self.strval(x) is not None else (x.v if isinstance(x, Const) and isinstance(x.v, (int, float)) else None) for x in args]
+            if tmpl is not None and all(c is not None for c in consts):
+                try:
+                    return Const(tmpl % (tuple(consts) if isinstance(b, Tup) else consts[0]))
+                except (TypeError, ValueError):
+                    pass
             parts = [Lit("%")]
             for x in args:
                 parts += self.str_parts(x, "%")
@@ -1459,6 +1467,10 @@ class Interp:
                 return Num(Poly.sym(attr))
             return ExtV(f"{b.name}.{attr}")
         if isinstance(b, (Str, Bytes)) or (isinstance(b, Const) and isinstance(b.v, (str, bytes))):
+            return BoundBuiltin(b, attr)
+        if isinstance(b, PatV):
+            if attr == "pattern":
+                return Const(b.pattern)
             return BoundBuiltin(b, attr)
         if isinstance(b, Tup):
             return BoundBuiltin(b, attr)
